@@ -598,7 +598,9 @@ func (c *Ctx) rulesC02grow() {
 			}
 		}
 	}
-	visit(ar)
+	for _, hf := range c.hostedFns(ar) {
+		visit(hf)
+	}
 	if !rec {
 		// index loop with len() in the header block of a loop
 		for _, b := range ar.Blocks {
